@@ -684,6 +684,40 @@ pub fn scenario<C: MlsConfig>(rng: &mut Rng, mk: Mk<C>, out: &mut Out, exhaustiv
             }
         }
         out.cover.insert("insider".into());
+        // ---- a foreign key INSIDE a fully consistent commit: A builds a commit whose update path announces a fresh public key
+        // (to which no path secret belongs) for the top node of its filtered path, resp. for its parent; parent hashes, tree
+        // hash, HPKE context, tag and signatures are computed over it (hook set_encap_foreign_key).  Every receiver that derives
+        // that node from its path secret must refuse (PubKeyMismatch); for the top node that is every receiver.
+        {
+            let own = a.current_member_index();
+            let unfiltered = a.verif_filtered_direct_path(own).map(|b| b.iter().filter(|x| !**x).count()).unwrap_or(0);
+            for (label, idx) in [("insider-foreign-key-at-path-top", unfiltered.saturating_sub(1)), ("insider-foreign-key-at-parent", 0usize)] {
+                if unfiltered == 0 || (idx == 0 && label.ends_with("top") && unfiltered == 1 && false) {
+                    continue;
+                }
+                let mut a2 = a.clone();
+                a2.clear_pending_commit();
+                mls_rs::verif::insider::set_encap_foreign_key(Some((idx, fresh_key.clone())));
+                let built = a2.commit(vec![]);
+                mls_rs::verif::insider::set_encap_foreign_key(None);
+                let Ok(o2) = built else { continue };
+                let b2 = o2.commit_message.to_bytes().unwrap();
+                for (ri, rname) in [(1usize, "B"), (2usize, "C")] {
+                    let r = w.group(ri).clone();
+                    // does this receiver derive the edited node?  The top node: always.  The committer's parent: only its sibling leaf.
+                    let derives = idx + 1 == unfiltered || r.current_member_index() == (own ^ 1);
+                    if derives {
+                        try_variant(&r, rname, &cm, &cb, &b2, label, true, None, out);
+                    } else {
+                        let mut g = r.clone();
+                        if std::panic::catch_unwind(std::panic::AssertUnwindSafe(|| g.process_incoming_message(o2.commit_message.clone()))).is_err() {
+                            out.fail("C03", format!("{rname} panics on {label}"));
+                        }
+                    }
+                }
+                out.cover.insert(label.to_string());
+            }
+        }
         // ---- re-attribution by an insider: A signs with its own key but names another member as the sender (fresh membership
         // tag); C signs A's commit / A's Update as its own.  Every receiver other than the named sender must refuse; the named
         // sender itself refuses a message "from itself".  (A Remove or Add re-signed by another member under its OWN name is a
